@@ -1,7 +1,7 @@
 (* C08 — the statements are false of the model of the PINNED tree (Cfg.pinned_cfg = snapshot 5024b31, before the
    fix: commits): concrete witnesses by computation.  They document what the machinery found and keep the
    discriminating power of the theorems visible: the same statements hold for the repaired configuration. *)
-From G08 Require Import Cfg Spec Proofs ConnOps.
+From G08 Require Import Cfg Spec Proofs ConnOps Safety.
 Open Scope N_scope.
 
 Definition sock0 : addr := tcp [0;0;0;0;0;0;0;0;0;0;255;255;127;0;0;1] 50000%Z.
@@ -55,3 +55,18 @@ Lemma ops_example :
                     (ConnOps.cinit [b "PROXY TCP4 1.1.1.1 2."; b "2.2.2 1000 2000" ++ CRLF ++ b "GE"; b "T /"]))) =
   [ConnOps.ORead (b "GE") false; ConnOps.OAddr (Some (tcp (v4in6 [1;1;1;1]) 1000%Z)); ConnOps.ORead (b "T /") false; ConnOps.ORead [] true].
 Proof. vm_compute. reflexivity. Qed.
+
+(* without the `len(tr) < ipv4AddressLen` test (c_ipv4_len = 0) the IPv4 arm indexes a 5-byte body up to tr[11] *)
+Definition cfg_no_v4_len_check : config := {|
+  c_v1_sig := c_v1_sig pinned_cfg; c_v2_sig := c_v2_sig pinned_cfg; c_ident_len := 13; c_buf_len := 232; c_dump_hi := 14; c_v2_first := true;
+  c_unknown := c_unknown pinned_cfg; c_proto_lo := 6; c_unknown_hi := 13; c_tcp_hi := 10; c_tcp4 := c_tcp4 pinned_cfg; c_tcp6 := c_tcp6 pinned_cfg;
+  c_t4_read := 32; c_t4_crlf_lo := 30; c_t4_crlf_hi := 32; c_t4_parse_hi := 30; c_t4_idx := 32;
+  c_t6_read := 22; c_t6_crlf_lo := 20; c_t6_crlf_hi := 22; c_t6_parse_hi := 20; c_t6_idx := 22;
+  c_unknown_idx := 13; c_v1_cap := 107; c_addr_off := 11;
+  c_port_parser := 2; c_v1_sep_check := true; c_v1_extra_reject := true; c_v1_family_check := true;
+  c_v2_fixed := 16; c_v2_maxlen := 2048; c_ipv4_len := 0; c_ipv6_len := 36;
+  c_cmd_local := 0; c_cmd_proxy := 1; c_fam_v4 := [17;18]; c_fam_v6 := [33;34]; c_fam_unix := [49;50];
+  c_v2_cmd_default_reject := true; c_v2_fam_default_reject := true; c_addr_nil_fallback := false |}.
+
+Lemma slice_panic_witness : exists cfg bs, c_ipv4_len cfg = 0%nat /\ panics cfg bs = true.
+Proof. exists cfg_no_v4_len_check, (V2_SIG ++ [33; 17; 0; 5; 1; 2; 3; 4; 5]). split; vm_compute; reflexivity. Qed.
